@@ -20,7 +20,7 @@ pub const ENTRY: Entry = Entry {
            are first measured from the driver's own behaviour. Oracle: controller memory == canvas == memory of a twin display driven \
            through the real set_pixel per pixel in order; and for every cell the ordered sequence of colours written equals the \
            stream's sequence for that position. Non-trivial = the stream has >= 2 pixels.",
-    assumptions: &["reference controller + canvas specification", "in-bounds streams only (C02 owns the rest)"],
+    assumptions: &["reference controller + canvas specification", "in-bounds streams, plus streams of length <= 3 that mix in-bounds pixels with discarded points (aliasing coordinates +-65536, near misses); C02 owns the rest"],
     run,
 };
 
@@ -286,6 +286,68 @@ fn run(ctx: &Ctx) -> Part {
                 acc.count("streams_after_other_calls", 1);
             }
         }
+        acc.states += 1;
+    }
+
+    // ---- streams that mix in-bounds pixels with points far outside (coordinates that alias onto visible pixels when
+    // truncated to 16 bits, near misses): the discarded points must not disturb order, position or colour of the rest
+    {
+        let cfg = Cfg::tiny(4, 3, false, Transport::RecSerial, (3, 2, 1, 1), 5);
+        let (lw, lh) = cfg.geo().lsize();
+        let mut alpha: Vec<(i32, i32)> = Vec::new();
+        for y in 0..lh as i32 {
+            for x in 0..lw as i32 {
+                alpha.push((x, y));
+            }
+        }
+        let inb = alpha.clone();
+        for &(x, y) in &inb {
+            alpha.extend_from_slice(&[(x + 65536, y), (x, y + 65536), (x - 65536, y), (x + 65536, y - 65536)]);
+        }
+        alpha.extend_from_slice(&[(lw as i32, 0), (-1, 0), (0, lh as i32)]);
+        let n = alpha.len();
+        let firsts: Vec<usize> = (0..n).collect();
+        let a = firsts
+            .par_iter()
+            .fold(Acc::new, |mut acc, &a| {
+                let mut go = |acc: &mut Acc, idx: &[usize]| {
+                    let st: Vec<(i32, i32, u32)> = idx.iter().enumerate().map(|(k, &i)| (alpha[i].0, alpha[i].1, 0x1000 + 0x111 * k as u32)).collect();
+                    if st.iter().all(|p| p.0 >= 0 && p.1 >= 0 && (p.0 as u32) < lw && (p.1 as u32) < lh) {
+                        return; // pure in-bounds streams are covered above
+                    }
+                    acc.evaluations += 1;
+                    acc.nontrivial += 1;
+                    acc.transitions += 1;
+                    acc.count("streams_with_discarded_points", 1);
+                    let hist = [Op::DrawIter(Pixels::List(st.clone()))];
+                    let ck = Checks { cell_sequences: true, ..Checks::ALL };
+                    match check_history(&cfg, &hist, &ck) {
+                        Ok(run) => {
+                            let mut t = Rig::new(&cfg);
+                            for &(x, y, c) in &st {
+                                if x >= 0 && y >= 0 && (x as u32) < lw && (y as u32) < lh {
+                                    let _ = t.apply(&Op::SetPixel { x: x as u16, y: y as u16, c });
+                                }
+                            }
+                            if let Some(d) = run.rig.ctl.mem.first_diff(&t.ctl.mem) {
+                                let f = Fail { sig: "draw_iter/with-discarded-points/differs-from-set_pixel-twin".into(), msg: format!("memory differs from set_pixel per in-bounds pixel at {d:?}"), at: 0 };
+                                acc.violation(violation(ctx, &cfg, &hist, "sequences", &f));
+                            }
+                        }
+                        Err((f, _)) => acc.violation(violation(ctx, &cfg, &hist, "sequences", &f)),
+                    }
+                };
+                go(&mut acc, &[a]);
+                for b in 0..n {
+                    go(&mut acc, &[a, b]);
+                    for c in 0..n {
+                        go(&mut acc, &[a, b, c]);
+                    }
+                }
+                acc
+            })
+            .reduce(Acc::new, Acc::merge);
+        acc = acc.merge(a);
         acc.states += 1;
     }
 
